@@ -288,7 +288,7 @@ def main(argv):
         for v in st['violations']:
             viol_recs.append(((module, hname, cfg), v, match_known(known, pid, hname, cfg, v)))
         for w in st['witnesses']:
-            witness_recs.append(dict(module=module, harness=hname, cfg=cfg, inputs=w['inputs'], ufs=w['ufs']))
+            witness_recs.append(dict(module=module, harness=hname, cfg=cfg, inputs=w['inputs'], ufs=w['ufs'], deferred=bool(w.get('deferred'))))
     for hname, ph in per_harness.items():
         ph['allkilled'] = ph.get('finished', 0) == 0
         if ph['obligations'] == 0 and not ph.get('allkilled') and not getattr(mod, 'NO_OBLIGATION_OK', {}).get(hname):
@@ -342,10 +342,28 @@ def main(argv):
     if len(witness_recs) > wcap:
         import random
         random.Random(seed).shuffle(witness_recs)
-        witness_recs = witness_recs[:wcap]
+        # paths that handed their verdict to the concrete replay are replayed first (and all of them, up to 4x the cap)
+        witness_recs.sort(key=lambda w: 0 if w.get('deferred') else 1)
+        ndef = sum(1 for w in witness_recs if w.get('deferred'))
+        witness_recs = witness_recs[:max(wcap, min(ndef, 4 * wcap))]
     wres = concrete_batch(witness_recs)
     w_ok = sum(1 for r in wres if r['outcome'] in ('ok', 'ended'))
     w_bad = [(w, r) for w, r in zip(witness_recs, wres) if r['outcome'] not in ('ok', 'ended')]
+    # ---- decimal variants of the witnesses (harnesses without uninterpreted functions): IEEE rounding exposure on non-dyadic inputs
+    dec_info = None
+    ndec = getattr(mod, 'DECIMAL_REPLAYS', {}).get(tier, 0)
+    if ndec:
+        drecs = []
+        for w in witness_recs:
+            if w.get('ufs'):
+                continue
+            for j in range(1, ndec + 1):
+                drecs.append(dict(w, inputs=dict(w['inputs'], __decimal__=j)))
+        dres = concrete_batch(drecs) if drecs else []
+        d_bad = [(w, r) for w, r in zip(drecs, dres) if r['outcome'] == 'violation']
+        dec_info = dict(variants_per_witness=ndec, replays=len(dres), ok=sum(1 for r in dres if r['outcome'] in ('ok', 'ended')),
+                        violations=len(d_bad), errors=sum(1 for r in dres if r['outcome'] == 'error'))
+        w_bad = w_bad + d_bad
     compiled_info = None
     if getattr(mod, 'COMPILED_REPLAY', {}).get(tier):
         cdir, log = build_compiled()
@@ -435,7 +453,7 @@ def main(argv):
             solver=dict(name='z3 ' + _z3v(), queries=agg['queries'], seconds=round(agg['tsolve'], 2), unknown=agg['unknown'], max_degree=agg['maxdeg']),
             symbolic_tasks=len(tasks), per_harness=per_harness, second_opinion_cvc5=second,
             functions_executed_symbolically=sorted(functions),
-            witness_replays=dict(source_ok=w_ok, source_bad=[dict(harness=w['harness'], cfg=w['cfg'], inputs=w['inputs'], result=r) for w, r in w_bad[:5]], compiled=compiled_info),
+            witness_replays=dict(decimal_variants=dec_info, source_ok=w_ok, source_bad=[dict(harness=w['harness'], cfg=w['cfg'], inputs=w['inputs'], result=r) for w, r in w_bad[:5]], compiled=compiled_info),
             counterexamples=dict(found=len(viol_recs), replayed=len(sel), confirmed_new=len(confirmed_new), confirmed_known=n_known_listed,
                                  unconfirmed=len(unconfirmed)),
             bounds=getattr(mod, 'BOUNDS', {}).get(tier, ''), extra_checks=extra, harness_errors=hard_errors,
